@@ -253,3 +253,38 @@ func PhiTest(cond ssa.Value) (phi *ssa.Phi, eval func(e ssa.Value, pred *ssa.Bas
 	}
 	return nil, nil, false
 }
+
+// AlwaysNilResult: v is result #idx of a call to a function (a named one or a function
+// literal bound to a local) every return of which hands back a nil constant there.
+func AlwaysNilResult(v ssa.Value) bool {
+	c, idx := CallOf(v)
+	if c == nil {
+		return false
+	}
+	if idx < 0 {
+		idx = 0
+	}
+	var fn *ssa.Function
+	if f := c.Common().StaticCallee(); f != nil {
+		fn = f
+	} else if mc, ok := Origin(c.Common().Value).(*ssa.MakeClosure); ok {
+		fn, _ = mc.Fn.(*ssa.Function)
+	}
+	if fn == nil || len(fn.Blocks) == 0 {
+		return false
+	}
+	rets := Returns(fn)
+	if len(rets) == 0 {
+		return false
+	}
+	for _, r := range rets {
+		if idx >= len(r.Results) {
+			return false
+		}
+		k, isC := r.Results[idx].(*ssa.Const)
+		if !isC || k.Value != nil {
+			return false
+		}
+	}
+	return true
+}
